@@ -46,16 +46,16 @@ class SeqTheory:
           ix(app(s, t), i) == z3.If(i < ln(s), ix(s, i), ix(t, i - ln(s))), [ix(app(s, t), i)])
         A(name + '.app_empty_r', [s], app(s, self.empty) == s, [app(s, self.empty)])
         A(name + '.app_empty_l', [s], app(self.empty, s) == s, [app(self.empty, s)])
-        # python slice semantics
-        def clip(v, m):
-            return z3.If(v < 0, z3.If(v + m < 0, 0, v + m), z3.If(v > m, m, v))
-        ca, cb = clip(a, ln(s)), clip(b, ln(s))
-        A(name + '.slc_len', [s, a, b], ln(slc(s, a, b)) == z3.If(cb > ca, cb - ca, 0), [slc(s, a, b)])
+        # python slice semantics, stated for the in-range case 0 <= a <= b <= len(s) only (no clipping case split: slices
+        # with out-of-range bounds are left unconstrained, which is sound -- fewer facts -- and all verified code slices in range)
+        inr = z3.And(0 <= a, a <= b, b <= ln(s))
+        A(name + '.slc_len', [s, a, b], z3.Implies(inr, ln(slc(s, a, b)) == b - a), [slc(s, a, b)])
         A(name + '.slc_idx', [s, a, b, i],
-          z3.Implies(z3.And(0 <= i, i < ln(slc(s, a, b))), ix(slc(s, a, b), i) == ix(s, ca + i)),
+          z3.Implies(z3.And(inr, 0 <= i, i < b - a), ix(slc(s, a, b), i) == ix(s, a + i)),
           [ix(slc(s, a, b), i)])
         A(name + '.slc_full', [s, n], z3.Implies(n == ln(s), slc(s, 0, n) == s), [slc(s, 0, n)])
         A(name + '.slc_none', [s, a], slc(s, a, a) == self.empty, [slc(s, a, a)])
+        A(name + '.slc_empty_range', [s, a, b], z3.Implies(z3.And(0 <= a, b <= a), slc(s, a, b) == self.empty), [slc(s, a, b)])
         A(name + '.slc_app_l', [s, t, n], z3.Implies(n == ln(s), slc(app(s, t), 0, n) == s), [slc(app(s, t), 0, n)])
         A(name + '.slc_app_r', [s, t, a, b], z3.Implies(z3.And(a == ln(s), b == ln(s) + ln(t)), slc(app(s, t), a, b) == t),
           [slc(app(s, t), a, b)])
@@ -506,6 +506,38 @@ class Theory:
 
     def all_axioms(self):
         return [a for _, a in self.axioms]
+
+    def focused_axioms(self, goal, extra_terms=()):
+        """All axioms except the definitions of spec predicates that the goal does not mention (directly or through the
+        definitions it does mention).  Fewer axioms is always sound; hypotheses keep those predicates as opaque atoms."""
+        need = set()
+
+        def scan(t):
+            stack = [t]
+            seen = set()
+            while stack:
+                x = stack.pop()
+                if x.get_id() in seen:
+                    continue
+                seen.add(x.get_id())
+                if z3.is_quantifier(x):
+                    stack.append(x.body())
+                    continue
+                if z3.is_app(x):
+                    n = x.decl().name()
+                    if n in self.defs and n not in need:
+                        need.add(n)
+                        stack.append(self.defs[n][1])
+                    stack.extend(x.children())
+        scan(goal)
+        for t in extra_terms:
+            scan(t)
+        out = []
+        for name, a in self.axioms:
+            if name.endswith('_def') and name[:-4] in self.defs and name[:-4] not in need:
+                continue
+            out.append(a)
+        return out
 
 
 def kind_name(kind):
